@@ -17,19 +17,19 @@ CLAIMED = {
                  'evaluations; the search order loses nothing; no bias changes the considered set, parameter kind or current choice; hence '
                  'decide_wf: every accepted request with ANY bias sequence lists exactly choseToMake (+ currentChoice) with links inside the '
                  'result, never the own alternative, never twice. Tie: checker C01_ok on every real response over all seven methods; '
-                 'structure correspondence of the ranking builders on the implementation\'s own evaluations.',
+                 'structure correspondence of the ranking builders on the implementation\'s own evaluations. Streams include requests evaluated with no criterion left and instances of 65-92 alternatives.',
                  'okv (order laws) assumed for utility values in the generic theorem; unconditional on exact rationals.',
                  'Coq proof (all methods x all bias sequences) + checker and builder correspondence on Go outputs', 'C01'),
     'C03': claim('Theorems (Properties/C03.v, exact rationals): OWA value = ascending weights x ascending values (independent of listing order); '
                  'Choquet grouped computation = textbook integral when sorted neighbours are equal or > 1e-5 apart, within n x 1e-5 otherwise; parsed '
                  'capacities total on the power set and in [0,1]; weighted sum: ws_value_refuted (the pinned code ignores the weights; recorded finding D2) '
                  'with the characterisation of what it computes. Tie: checker C03 recomputes the aggregate from each returned entry and the final '
-                 '(post-bias) parameters dumped from the running code; values correspondence model/code.',
+                 '(post-bias) parameters dumped from the running code; values correspondence model/code. The state the method is evaluated on must be coherent (Check/Stage.v inv: every criterion of the state has a value and a parameter), judged on every response.',
                  'arithmetic theorems over Q, not binary64; comparison up to 1.5e-8 + 1e-9 relative.',
                  'Coq proof over Qc + vm_compute checker on Go outputs; known finding for weightedSum', 'C03'),
     'C04': claim('Theorems (Properties/C04.v, any carrier with OrdLaws): the model of Ranking() is the permutation sorted by (rounded value desc, id asc); links = same '
                  'value others + next lower distinct value; following links reaches exactly the not-higher alternatives; invariant under listing order; checker sound. '
-                 'Tie: model run on the same (id,value) lists as the real Ranking(); checker on real utility responses; listing-order permutations of requests.',
+                 'Tie: model run on the same (id,value) lists as the real Ranking(); checker on real utility responses; listing-order permutations of requests. The permuted requests include biased ones and anchoring on several alternatives with coefficients 0 / left out.',
                  'order laws for binary64 not proved here; listing-order invariance of per-alternative values checked metamorphically.',
                  'Coq proof of the ranking model + vm_compute correspondence and checker on Go outputs', 'C04'),
     'C05': claim('Theorems (Properties/C05.v): every distillation partitions the alternatives into non-empty classes numbered consecutively from 1; links = index '
@@ -39,7 +39,7 @@ CLAIMED = {
                  '(negative_distillation_diverges shows why validation is needed). Model = set-level distillation on original indices. Tie: full response '
                  'correspondence on electreIII requests + checker recomputing indices and links from the returned entries and the final parameters; raw matrices through the exported '
                  'RankAscending/RankDescending; the credibility matrix the code derives (evaluateCredibilityMatrix, exported by the overlay) entry by entry against the model; a search phase '
-                 'for differing indices whenever one of these correspondences breaks.',
+                 'for differing indices whenever one of these correspondences breaks. Instances of 13-23 and 65-92 alternatives; a Go runtime error on a request the model answers is a violation with that request.',
                  'matrix bookkeeping of the Go code (Slice/Without) is covered by the correspondence only.',
                  'Coq proof of the distillation model + vm_compute correspondence on Go outputs', 'C05'),
     'C06': claim('Theorems (Properties/C06.v, exact rationals): outranking monotone for non-positive slope; covering => qualification order at every cut level => class order in both '
@@ -53,7 +53,7 @@ CLAIMED = {
                  'reports exactly the two scores, did not score higher, ranked below it; policy case analysis (take_better_policy_spec); majority_is_tournament: a declarative inductive relation '
                  '(running leader with its tie group, next alternative of the search order, verdict by scores and draw policy) of which every returned ranking is a run, listed in reverse order of dropping '
                  'out; C11_ok_sound: the checker evaluated on real responses implies the per-entry clauses in declarative form. Tie: full response correspondence on majority '
-                 'requests (four policies, seeded order, three currentChoice positions) + checker recomputing scores from returned entries.',
+                 'requests (four policies, seeded order, three currentChoice positions) + checker recomputing scores from returned entries. Batches of 48 draw-heavy majority requests with mixed draw policies are also served concurrently by one process, every answer judged by the checker and compared with the answer given alone.',
                  'ids must be non-empty strings (witness in Proofs/MajorityFacts.v).',
                  'Coq proof of the tournament invariant + vm_compute correspondence and checker on Go outputs', 'C11'),
     'C12': claim('Theorems (Properties/C12.v, any carrier with OrdLaws): aspect_passes_checker: survivors first; eliminated in reverse order; each reports the level/criterion/threshold it '
@@ -70,7 +70,7 @@ CLAIMED = {
                  'Coq proof of the acceptance walk + vm_compute correspondence and checker on Go outputs', 'C13'),
     'C14': claim('Theorems (Properties/C14.v, exact rationals): validation = documented ranges; four update rules; strict monotonicity; threshold formula; declared range first; '
                  'finiteness with explicit bounds; consecutive levels strictly monotone. Tie: the real level sources (as wired in main.go) called directly and compared level by level with the '
-                 'model, plus a series checker on the returned levels; every series is generated twice from the same data (must be equal, data deep-compared before/after).',
+                 'model, plus a series checker on the returned levels; every series is generated twice from the same data (must be equal, data deep-compared before/after); parameters include decimal steps whose float accumulation ends a last bit below the cap.',
                  'binary64 may differ from Q in the count where a decimal series crosses its bound by less than an ulp; the model on binary64 follows Go.',
                  'Coq proof over Qc + vm_compute correspondence of the level sources', 'C14'),
 }
@@ -90,7 +90,7 @@ CLAIMED.update({
                  'to every bias sequence and to the state the method is evaluated on; frame: only what is reported changes; alternatives and their split never change; evaluate_total: on coherent data of the right parameter kind no method fails with a '
                  'combination error (missing value / weight / criterion, collision, wrong kind, index), side conditions explicit and witnessed; the same for fatigue, omission, reversal, inline '
                  'anchoring. Tie: every traced bias application of the real code is compared with the model step (state and report), and inv / frame / crits_as_reported (criteria after = before '
-                 '- reported omissions + reported additions) are evaluated on the real states; a combination that fails in the code while the model succeeds is reported with its request.',
+                 '- reported omissions + reported additions) are evaluated on the real states; a combination that fails in the code while the model succeeds is reported with its request (per stage, and for the whole request: every failing request is judged against the model of the whole request on the same seeded draws).',
                  'inv after a criterion-adding bias needs the parameter object to know the same criteria as the state (sync), established by prepare and preserved; totality of concealment, '
                  'mixing and new-criterion anchoring is decided by correspondence, not proved (witnesses of what they need beyond coherence in Proofs/TotalityFacts.v).',
                  'Coq invariant proof over bias sequences + per-stage correspondence on traced Go runs', 'C07'),
@@ -108,7 +108,7 @@ CLAIMED.update({
     'C10': claim('Theorems (Properties/C10.v): in the effect model, threads that never write shared locations nor touch another thread\'s private ones end, under every interleaving, in '
                  'the state they reach alone, return the same result, and no two accesses conflict (race freedom); obligation against the write summary regenerated from the source: '
                  'only receivers of per-request objects are written, factories return fresh objects, no goroutines. Tie: batches of 2-32 concurrent requests against the real '
-                 'registries, compared with the sequential answers, also on a race-detector build.',
+                 'registries, compared with the sequential answers, also on a race-detector build; the batches mix valid requests with requests rejected while decoding, validating or inside a bias (mistyped bias parameters) that use the same biases.',
                  'partial: soundness of the syntactic write summary (unresolved pointer aliases are not flagged), the Go memory model, gin and the runtime are not verified.',
                  'Coq noninterference theorem + regenerated write-summary obligation + concurrent runs with race detector', 'C10'),
     'C15': claim('Theorems (Properties/C15.v, exact rationals): k = clamp(floor(n ratio)); omitted = first k of the ordering; all five orderings are permutations; weakest/strongest soundness w.r.t. '
@@ -119,14 +119,14 @@ CLAIMED.update({
                  'Coq proof over Qc + per-stage correspondence and reduced-request comparison', 'C15'),
     'C16': claim('Theorems (Properties/C16.v, exact rationals): v -> max + min - v for every known alternative on every selected criterion with the declared / currently observed range; frame; '
                  'range preserved; involution; reversal_passes_checker. Tie: per-stage correspondence + checker on traced reversals (all orderings, with and without declared ranges, '
-                 'considered = / subset of known, after other biases).', 'pairwise distinct alternative and criterion ids.',
+                 'considered = / subset of known, after other biases, a single criterion with any weight under every ordering).', 'pairwise distinct alternative and criterion ids.',
                  'Coq proof over Qc + per-stage correspondence on traced Go runs', 'C16'),
     'C17': claim('Theorems (Properties/C17.v, exact rationals): |v\' - v| <= |f v| for every stream; f = 0 identity; both signs; bounding = raise to 0 then clip into the centred scaled range, '
-                 'monotone; frame and faithful report; fatigue_passes_checker. Tie: per-stage correspondence (value and sign streams of the Go generator, math.Exp as oracle) + checker.',
+                 'monotone; frame and faithful report; fatigue_passes_checker. Tie: per-stage correspondence (value and sign streams of the Go generator, math.Exp as oracle) + checker; the report read again after the whole decision (what the response carries) must still be what fatigue handed on.',
                  'draws in [0,1); exp taken from Go.', 'Coq proof over Qc + per-stage correspondence on traced Go runs', 'C17'),
     'C19': claim('Theorems (Properties/C19.v, exact rationals): reference point = coefficient-weighted best/worst per criterion; mapped differences; inline value and reported difference; '
                  'not-considered only if asked; zero functions identity; new-criterion value with normalised weights; anchoring_passes_checker for both appliers. Tie: per-stage '
-                 'correspondence (exp oracle) + checker on traced anchoring applications.', 'positive coefficients (a zero coefficient is outside the domain, witness in Proofs/AnchoringFacts.v).',
+                 'correspondence (exp oracle) + checker on traced anchoring applications.', 'positive coefficients in the theorem; with a coefficient of 0 (no weighted comparison exists: a cost value is divided by it) the checker only asks the reference value to be one of the anchoring alternatives\' values (zero_coefficient_not_judged in Proofs/AnchoringFacts.v); stages on which binary64 itself leaves the finite range are counted, not judged.',
                  'Coq proof over Qc + per-stage correspondence on traced Go runs', 'C19'),
     'C20': claim('Theorems (Properties/C20.v): decide is total (ranking with echoes, or rejection); one rejection lemma per documented constraint (31), incl. fired biases with bad '
                  'properties; termination of ELECTRE distillation under the validated domain is in C05. Tie: the unmodified service under a memory limit: valid stream, every documented '
